@@ -440,3 +440,56 @@ def run_b64consts(prop, S, outdir):
         res = Result(ob, "F", "verified", "", 0, meta)
     info = {"unit": "engine_f_b64", "engine": "frame audit (text)", "cmd": f"{len(found)} decode engine definitions of tera-contrib/src/base64.rs", "wall_s": 0.0, "smt_s": 0.0, "trusted": [], "functions": ["tera-contrib::base64::{STANDARD_DECODE, URL_SAFE_DECODE}"], "assumptions": ["engine F (b64): the definitions are compared as text (alphabet constant and DecodePaddingMode named in them)"]}
     return [res], [info]
+
+
+def run_lexpos(prop, S, outdir):
+    """C12: the lexer's position state (current_byte / current_line / current_col and the unread `rest`) moves only
+    through the `advance!` step, whose expansions are what unit lex_raw verifies against `advance_fold`.  A
+    second writer is not refuted by this audit - it is simply not under contract: frame changed, re-audit."""
+    from driver import Result
+    from sources import REPO
+
+    if prop not in ("C12", "ALL"):
+        return [], []
+    ob = "frame/lexer/position_state"
+    meta = {"unit": "engine_f", "props": ["C12"], "what": "current_byte / current_line / current_col / rest of basic_tokenize are written only inside `advance!`"}
+    try:
+        t = open(os.path.join(REPO, "tera/src/parsing/lexer.rs")).read()
+        a = t.index("fn basic_tokenize(")
+        m = re.search(r"(?m)^(?:pub(?:\([^)]*\))? )?fn \w+|^#\[cfg\(test\)\]|^impl ", t[a + 10:])
+        body = t[a:a + 10 + m.start()] if m else t[a:]
+        ma = body.index("macro_rules! advance")
+        depth = 0
+        k = body.index("{", ma)
+        j = k
+        while True:
+            if body[j] == "{":
+                depth += 1
+            elif body[j] == "}":
+                depth -= 1
+                if depth == 0:
+                    break
+            j += 1
+        macro = body[ma:j + 1]
+        outside = body[:ma] + "\n" * macro.count("\n") + body[j + 1:]
+    except Exception as e:  # noqa: BLE001
+        return [Result(ob, "F", "undecided", f"inventory failed: {e}", 0, meta)], []
+    inside = len(re.findall(r"\b(?:current_byte|current_line|current_col|rest)\s*(?:[-+*/]?=)(?!=)", macro))
+    writers = []
+    base = t[:a].count("\n") + 1
+    for i, line in enumerate(outside.split("\n")):
+        code = line.split("//")[0]
+        for mm in re.finditer(r"\b(current_byte|current_line|current_col|rest)\s*(?:[-+*/]?=)(?!=)", code):
+            if re.search(r"\blet\s+mut\s+" + mm.group(1) + r"\s*=", code):
+                continue
+            writers.append(f"{mm.group(1)} at lexer.rs:{base + i}")
+        if re.search(r"&mut\s+(current_byte|current_line|current_col|rest)\b", code):
+            writers.append(f"&mut borrow at lexer.rs:{base + i}")
+    if inside < 4:
+        res = Result(ob, "F", "undecided", f"vacuity guard: only {inside} position writes found inside `advance!`", 0, meta)
+    elif writers:
+        res = Result(ob, "F", "undecided", "frame changed, re-audit: the lexer's position state is written outside `advance!` (not under contract): " + ", ".join(writers[:6]), 0, meta)
+    else:
+        res = Result(ob, "F", "verified", "", 0, meta)
+    info = {"unit": "engine_f_lexpos", "engine": "frame audit (text)", "cmd": f"writers of current_byte/current_line/current_col/rest in basic_tokenize: {inside} inside `advance!`, {len(writers)} outside", "wall_s": 0.0, "smt_s": 0.0, "trusted": [], "functions": ["parsing::lexer::basic_tokenize (position state)"], "assumptions": ["engine F (lexer position): writers are found as text (assignment operators and &mut borrows of the four variables); the step itself is verified in unit lex_raw at the sites extracted there, the other expansions are the same macro body"]}
+    return [res], [info]
